@@ -10,8 +10,8 @@ from ..tlc import derive_cfg, require_coverage, run_tlc
 def portal(ctx):
     """greenback portals: Portal.tla (logical stack -> physical structure -> Walk), replayed under Trio"""
     quick = ctx.tier == "quick"
-    cfg = derive_cfg("Portal.cfg", "Portal_q.cfg", {"MaxDepth": "5" if quick else "7", "MaxSteps": "12" if quick else "16"})
-    r = ctx.tlc(run_tlc("Portal", cfg, timeout=1800, name="portal"), "greenback portal structures, exhaustive under VIEW")
+    cfg = derive_cfg("Portal.cfg", "Portal_q.cfg", {"MaxDepth": "5" if quick else "6", "MaxSteps": "12" if quick else "14"})
+    r = ctx.tlc(run_tlc("Portal", cfg, timeout=3600, name="portal"), "greenback portal structures, exhaustive under VIEW")
     if not r.ok:
         ctx.violation(f"model (Portal): {r.violated}", r.trace_text[-2000:])
         return
